@@ -407,14 +407,14 @@ class Interp:
             raise PyRaise(e)
 
     def _int_width(self, *terms):
-        """Smallest of 8/16/32/64 such that all terms are provably in [0, 2^w)."""
-        for w in (8, 16, 32, 64):
+        """Smallest of 8/16/32/64/256 such that all terms are provably in [0, 2^w)."""
+        for w in (8, 16, 32, 64, 256):
             ok = True
             for t in terms:
                 b = _syntactic_bounds(t)
                 if b is not None and 0 <= b[0] and b[1] < (1 << w):
                     continue
-                if b is not None and (b[0] < 0 or b[1] >= (1 << 64)):
+                if b is not None and (b[0] < 0 or b[1] >= (1 << 256)):
                     ok = False
                     break
                 if self.ctx.prove(z3.And(t >= 0, t < (1 << w))):
@@ -528,7 +528,16 @@ class Interp:
                 if k < 0:
                     raise PyRaise(ValueError("negative shift count"))
                 return SInt(ta * (1 << k))
-            raise Unsupported("shift by symbolic amount")
+            # a << n for a symbolic count with a proved small range: a * 2**n, 2**n as a case table
+            if not self.fmode and not self._nonneg(tb) and self.ctx.branch(tb < 0):
+                raise PyRaise(ValueError("negative shift count"))
+            for top in (7, 15, 31, 63, 255):
+                if self.ctx.prove(tb <= top):
+                    p2 = z3.IntVal(1 << top)
+                    for k in range(top - 1, -1, -1):
+                        p2 = z3.If(tb == k, z3.IntVal(1 << k), p2)
+                    return SInt(ta * p2)
+            raise Unsupported("shift by symbolic amount without a proved bound")
         if isinstance(op, ast.RShift):
             if z3.is_int_value(tb):
                 k = tb.as_long()
